@@ -84,7 +84,23 @@ def rprice(rng):
     return rng.choice([1, 2, 3, 5, 7]) * 100 * U if rng.random() < 0.5 else rng.randint(1, 10**rng.randint(4, 18))
 
 
-MIXED = {"C06": 0.15, "C07": 0.15, "C09": 0.15, "C10": 0.15, "C08": 0.15}
+MIXED = {"C06": 0.15, "C07": 0.15, "C09": 0.15, "C10": 0.15, "C08": 0.15, "C17": 0.6}
+
+
+def boundary_dates(rows):
+    """dates on which a date-filter bound is most delicate: the local date of a row differs from its UTC date (a filter that
+    compares UTC dates goes wrong), or two rows adjacent in instant order have local dates in the opposite order"""
+    out = []
+    rs = sorted(rows, key=lambda r: r[2])
+    for r in rs:
+        dl, du = ldate(r[2], r[3]), ldate(r[2], 0)
+        if dl != du:
+            out += [min(dl, du), max(dl, du)]
+    for a, b in zip(rs, rs[1:]):
+        da, db = ldate(a[2], a[3]), ldate(b[2], b[3])
+        if db < da:
+            out += [db, da]
+    return out
 
 
 def country_of(case):
@@ -113,6 +129,7 @@ def gen(rng, prop=None):
     if offs == [0] and rng.random() < 0.35:
         offs = [rng.choice([9 * 3600, -5 * 3600, 14 * 3600, -12 * 3600, 5 * 3600 + 1800])]      # one non-UTC zone for the whole history
     newyear = rng.random() < 0.3
+    subsec = rng.random() < 0.2           # several transactions inside one second, told apart only by microseconds
     bal = defaultdict(int)
     rows = []
     secs = sorted(rng.choice([0, 0, 3600 * 23, 43207]) for _ in range(n))
@@ -126,17 +143,20 @@ def gen(rng, prop=None):
         # instants around New Year (days 213/214 = 2019-12-31 / 2020-01-01, 579/580 = 2020-12-31 / 2021-01-01) and near midnight
         pool = sorted(set(rng.choice([213, 214, 579, 580, 944, 945]) for _ in range(rng.randint(2, 5))) | {rng.randint(0, 212)})
         secs = sorted(rng.choice([0, 1800, 3 * 3600 + 1800, 10 * 3600, 20 * 3600, 23 * 3600 + 1800]) for _ in range(n))
+    many = prop == "C04"                  # many-digit amounts and prices: products that do not fit 31 digits, fees tiny next to the amounts
     for idx in range(n):
         d = pool[min(len(pool) - 1, idx * len(pool) // n)]
         u = us(datetime(2019, 6, 1, tzinfo=timezone.utc) + timedelta(days=d, seconds=secs[idx]))
+        if subsec:
+            u += idx * 1000 + rng.choice([0, 1, 499999])
         if prop == "C05" and rng.random() < 0.3:
             u += rng.choice([-1, 1])
         off = rng.choice(offs)
         kind = rng.choice(["buy", "buy", "earn", "sell", "sell", "fee", "move", "move"]) if idx > 0 else "buy"
         ai = rng.randrange(len(ACCTS))
-        price = rprice(rng)
+        price = rprice(rng) if not (many and rng.random() < 0.7) else rng.randint(10**13, 10**18)
         if kind in ("buy", "earn"):
-            amt = ramt(rng)
+            amt = ramt(rng) if not (many and rng.random() < 0.6) else rng.randint(10**11, 10**15)
             bal[ai] += amt
             typ = rng.choice(["BUY", "GIFT", "DONATE"]) if kind == "buy" else rng.choice(EARN)
             rows.append(["IN", 0, u, off, typ, ai, price, amt, rng.choice([None, None, 150000000000, rng.randint(1, 10**13)]),
@@ -152,7 +172,7 @@ def gen(rng, prop=None):
                 fee = rng.choice([0, 0, min(U // 100, max(0, bal[ai] - amt))])
                 bal[ai] -= amt + fee
                 rows.append(["OUT", 0, u, off, rng.choice(["SELL", "GIFT", "DONATE", "LOST", "STAKING"]), ai, price, amt, fee,
-                             rng.choice([None, None, None, amt + fee]), rng.choice([None, None, rng.randint(1, 10**16)]), rng.choice([None, None, rng.randint(0, 10**12)])])
+                             rng.choice([None, None, None, amt + fee]) if rng.random() < 0.92 else amt + fee + rng.choice([1, -1, 100, 40000000]), rng.choice([None, None, rng.randint(1, 10**16)]), rng.choice([None, None, rng.randint(0, 10**12)])])
             elif kind == "fee":
                 f = min(bal[ai], rng.choice([1, U // 1000, U]))
                 bal[ai] -= f
@@ -164,6 +184,32 @@ def gen(rng, prop=None):
                 bal[ai] -= s
                 bal[di] += s - f
                 rows.append(["INTRA", 0, u, off, ai, di, price if (f > 0 or rng.random() < 0.6) else None, s, s - f])
+    if (prop == "C08" and rng.random() < 0.4) or (len(offs) > 1 and rng.random() < 0.05):
+        # a purchase and a sale on an otherwise unused account three hours apart whose local calendar dates come in the opposite order
+        # (bought first: the account never goes negative; sold first: it is overdrawn for three hours)
+        unused = [k for k in range(len(ACCTS)) if all((x[5] != k) if x[0] != "INTRA" else (x[4] != k and x[5] != k) for x in rows)]
+        if unused:
+            ai = rng.choice(unused)
+            base = us(datetime(2019, 6, 1, 12, tzinfo=timezone.utc) + timedelta(days=rng.choice(pool)))
+            first, second = (base, 14 * 3600), (base + 3 * 3600 * 10**6, rng.choice([0, -12 * 3600]))
+            (ub, ob), (uo, oo) = (first, second) if rng.random() < 0.6 else (second, first)
+            amt = ramt(rng)
+            rows.append(["IN", 0, ub, ob, "BUY", ai, rprice(rng), amt, None, None, None])
+            rows.append(["OUT", 0, uo, oo, "SELL", ai, rprice(rng), amt if rng.random() < 0.7 else max(1, amt // 2), 0, None, None, None])
+    if prop == "C17":
+        # distinct instants (the property's proviso), told apart by whole seconds or by microseconds ...
+        step = rng.choice([1, 1000, 10**6, 10**6])
+        for k, x in enumerate(sorted(rows, key=lambda x: x[2])):
+            x[2] += k * step
+        # ... and "wall-clock twins": an extra acquisition whose local wall-clock reading coincides with that of an existing one in another zone
+        if len(offs) > 1:
+            for _ in range(rng.choice([0, 1, 1, 2])):
+                lots = [x for x in rows if x[0] == "IN"]
+                src = rng.choice(lots)
+                off = rng.choice([o_ for o_ in offs if o_ != src[3]])
+                u = src[2] + (src[3] - off) * 10**6
+                if all(x[2] != u for x in rows):
+                    rows.append(["IN", 0, u, off, "BUY", src[5], rprice(rng), ramt(rng), None, None, None])
     rng.shuffle(rows)
     r = 3
     for tbl in ("IN", "OUT", "INTRA"):
@@ -177,6 +223,12 @@ def gen(rng, prop=None):
     nowin = 1 if prop in ("C09", "C10") else 3
     fd = rng.choice([None] * nowin + cand)
     td = rng.choice([None] * nowin + cand)
+    bd = boundary_dates(rows)
+    if bd and rng.random() < 0.5:
+        if rng.random() < 0.7:
+            td = rng.choice(bd)
+        else:
+            fd = rng.choice(bd)
     if prop == "C09":
         fd = None
     if fd and td and fd > td:
@@ -300,7 +352,8 @@ def run_model(cases):
 
 def diff(case, i, m):
     """per-component comparison; downstream components are compared only where their upstream agrees"""
-    si, sm = i["status"], m["status"]
+    canon = lambda st: "error" if st.startswith("error:") else st       # both sides reject the input with a value error: which message is not compared
+    si, sm = canon(i["status"]), canon(m["status"])
     if si != sm:
         if "exhausted" in (si, sm):
             return ["status-engine"]
@@ -579,6 +632,11 @@ def oracle_c10(case, res, guard=True):
     for t in ("in", "out", "intra"):
         if res["shown"][t] != [x for x in un["shown"][t] if inw(x)]:
             return f"{t}-transactions shown {res['shown'][t]} vs the in-window ones of the unfiltered run {[x for x in un['shown'][t] if inw(x)]}"
+    # balances reflect all history up to the to-date
+    acq, sent, rec = flows(case, td if case["to"] else None)
+    expb = sorted([a, acq[a], sent[a], rec[a], acq[a] + rec[a] - sent[a]] for a in set(acq) | set(sent) | set(rec))
+    if res["balances"] != expb:
+        return f"balances {res['balances']} do not reflect the history up to the to-date: {expb}"
     if case["from"]:
         nofrom = run_impl(case, fd=MIN_DATE)
         if nofrom["status"] == "ok":
@@ -594,6 +652,14 @@ def oracle_c10(case, res, guard=True):
 
 
 def oracle_c09(case, res, guard=True):
+    if res["status"].startswith("error") and case["to"] is not None and case["from"] is None and not (guard and not local_dates_monotone(case)):
+        td_ = date.fromisoformat(case["to"])
+        keep_ = [r for r in case["rows"] if ldate(r[2], r[3]) <= td_]
+        if any(r[0] == "IN" for r in keep_):
+            tr_ = run_impl(case, fd=MIN_DATE, td=MAX_DATE, rows=keep_)
+            if tr_["status"] == "ok":
+                return f"the whole history fails ({res['status']}: {res.get('_msg', '')[:70]}) although the history truncated at the to-date computes: later transactions changed earlier results"
+        return None
     if res["status"] != "ok" or (guard and not local_dates_monotone(case)) or case["to"] is None or case["from"] is not None:
         return None
     td = date.fromisoformat(case["to"])
@@ -609,7 +675,58 @@ def oracle_c09(case, res, guard=True):
     return None
 
 
-ORACLES = {"C03": oracle_c03, "C04": oracle_c04, "C05": oracle_c05, "C06": oracle_c06, "C07": oracle_c07, "C08": oracle_c08, "C09": oracle_c09, "C10": oracle_c10}
+def _no_crash(f):
+    def g(case, res, guard=True):
+        if res["status"].startswith(("crash", "hang")):
+            return f"the computation aborts with an internal error ({res['status']}: {res.get('_msg', '')[:80]}) on this history, so the property's figures are not produced"
+        return f(case, res, guard)
+    return g
+
+
+def permuted(case):
+    """the same transactions with the rows of each table in another order (row numbers change with the order)"""
+    rng = random.Random(sum(r[2] for r in case["rows"]) % 1000003)
+    new = [list(r) for r in case["rows"]]
+    rng.shuffle(new)
+    rid = 3
+    old2new = {}
+    for tbl in ("IN", "OUT", "INTRA"):
+        for x in new:
+            if x[0] == tbl:
+                old2new[x[1]] = rid
+                x[1] = rid
+                rid += 1
+        rid += rng.choice([1, 3, 3])
+    return new, old2new
+
+
+def oracle_c17(case, res, guard=True):
+    """results are a function of the transactions alone: unchanged (up to row numbers) when rows are reordered within the tables, provided
+    the timestamps are distinct; and identical when the same input is computed twice in the same process"""
+    rows = case["rows"]
+    again = run_impl(case)
+    pubd = lambda r: json.dumps({k: v for k, v in r.items() if not k.startswith("_")}, sort_keys=True, default=str)
+    if pubd(again) != pubd(res):
+        return "computing the same input twice in one process gives different results"
+    if len({r[2] for r in rows}) < len(rows):
+        return None
+    new, o2n = permuted(case)
+    r2 = run_impl(case, rows=new)
+    if r2["status"] != res["status"]:
+        return f"with the rows reordered within the tables (rows {[x[1] for x in new]}) the computation ends with '{r2['status']}' instead of '{res['status']}'"
+    if res["status"] != "ok":
+        return None
+    m = lambda i: None if i is None else o2n.get(i, i)
+    a = {"fractions": [dict(f, ev=m(f["ev"]), lot=m(f["lot"])) for f in res["fractions"]], "yearly": res["yearly"], "balances": res["balances"], "price": res["price"],
+         "shown": {k: [m(i) for i in v] for k, v in res["shown"].items()}, "sums": {k: sorted([m(x[0])] + x[1:] for x in v) for k, v in res["sums"].items()}}
+    b = {k: r2[k] for k in a}
+    for k in a:
+        if json.dumps(a[k], sort_keys=True, default=str) != json.dumps(b[k], sort_keys=True, default=str):
+            return f"with the rows reordered within the tables (old row -> new row {o2n}) the {k} differ: {json.dumps(a[k], default=str)[:300]} vs {json.dumps(b[k], default=str)[:300]}"
+    return None
+
+
+ORACLES = {k: _no_crash(v) for k, v in {"C17": oracle_c17, "C03": oracle_c03, "C04": oracle_c04, "C05": oracle_c05, "C06": oracle_c06, "C07": oracle_c07, "C08": oracle_c08, "C09": oracle_c09, "C10": oracle_c10}.items()}
 
 
 def shrink_candidates(case):
